@@ -55,7 +55,17 @@ def main():
         d = core.ensure_facts(force=(tier == "thorough" and os.environ.get("VERIF_NO_REEXTRACT") is None))
         ctx = Ctx(d, tier)
         mod = importlib.import_module(prop.lower())
-        mod.run(ctx, rep)
+        try:
+            mod.run(ctx, rep)
+        finally:
+            # the plumbing obligations are independent of the property's own rules: evaluate them even when those aborted (fail closed),
+            # so that the report names the plumbing defect and not only "anchor missing"
+            if prop != "C12":
+                import c12
+                try:
+                    c12.plumbing(ctx, rep, prop)
+                except Exception as e:
+                    rep.fail("PB", "%s|PB|not-evaluable" % prop, None, "the plumbing rules (C12 H1-H7) could not be evaluated (fail closed): %s: %s" % (type(e).__name__, str(e)[:200]))
         explanation = getattr(mod, "EXPLANATION", mod.__doc__ or "")
     except core.ExtractionError as e:
         rep.fail("extract", "%s|extraction-failed" % prop, None, "fact extraction failed (fail closed): %s" % e)
